@@ -856,9 +856,12 @@ func (tt *TermTable) FloatToInt(cfg FloatCfg, a *Term, w int, signed bool) (*Ter
 		return tt.BV(uint64(a.f), w), nil
 	}
 	if cfg.Dom == SReal {
-		tr, _ := tt.FUnaryMath(cfg, "Trunc", a)
-		// tr = to_real(int) or ite of such; use to_int again
-		return tt.mk(fmt.Sprintf("(_ int2bv %d)", w), SBV, w, tt.mk("to_int", SInt, 0, tr)), nil
+		// trunc(a) built directly as an Int term (to_int(to_real(k)) = k): keeps the query free
+		// of nested to_int/to_real, which z3 does not simplify and then times out on.
+		fl := tt.mk("to_int", SInt, 0, a)
+		ce := tt.mk("-", SInt, 0, tt.mk("to_int", SInt, 0, tt.mk("-", SReal, 0, a)))
+		ti := tt.Ite(tt.mk("<", SBool, 0, a, tt.Float(0, SReal)), ce, fl)
+		return tt.mk(fmt.Sprintf("(_ int2bv %d)", w), SBV, w, ti), nil
 	}
 	if signed {
 		return tt.mk(fmt.Sprintf("(_ fp.to_sbv %d)", w), SBV, w, tt.mk("RTZ", SBool, 0), a), nil
